@@ -1,0 +1,39 @@
+//go:build verif
+
+package tq
+
+import "time"
+
+// VerifAbortableWaitGroup drives an abortableWaitGroup with a script of
+// operations for the verification harness (only with `-tags verif`):
+// 'a' = Add(1), 'A' = Add(3), 'd' = Done(), 'x' = Abort().  It reports, after
+// the last operation, whether Wait() returns, or "panic" when the WaitGroup
+// inside went negative.
+func VerifAbortableWaitGroup(script string) (result string) {
+	defer func() {
+		if r := recover(); r != nil {
+			result = "panic"
+		}
+	}()
+	g := newAbortableWaitGroup()
+	for _, c := range script {
+		switch c {
+		case 'a':
+			g.Add(1)
+		case 'A':
+			g.Add(3)
+		case 'd':
+			g.Done()
+		case 'x':
+			g.Abort()
+		}
+	}
+	done := make(chan struct{})
+	go func() { g.Wait(); close(done) }()
+	select {
+	case <-done:
+		return "returns"
+	case <-time.After(30 * time.Millisecond):
+		return "blocks"
+	}
+}
